@@ -1483,7 +1483,8 @@ int __wrap(pthread_spin_trylock)(pthread_spinlock_t *lock) {
   int ret;
   (void)_;
   if (myth_should_wrap_pthread()) {
-    ret = myth_spin_trylock_body((myth_spinlock_t *)lock);
+    /* myth convention: 1 = acquired, 0 = busy; POSIX: 0 = acquired, EBUSY */
+    ret = myth_spin_trylock_body((myth_spinlock_t *)lock) ? 0 : EBUSY;
   } else {
     ret = real_pthread_spin_trylock(lock);
   }
